@@ -130,6 +130,9 @@ pub struct MapStats {
     pub impl_orders: std::collections::BTreeSet<u64>,
     pub routes_unavailable: u64,
     pub dup_checks: u64,
+    pub hash_epochs: u64,
+    pub insertion_histories: u64,
+    pub permuted_texts: u64,
     pub value_roundtrips: u64,
     pub type_roundtrips: u64,
     pub json_roundtrips: u64,
@@ -193,6 +196,7 @@ pub fn check_map(map_seed: u64, mask: u64, n_seeds: usize, only_seed: Option<u64
             let prints = prints_ref;
             let viol = |class: &'static str, detail: String, route: &str| Some(Viol { class, detail, hash_seed: hs, route: route.to_string() });
             stats.orders.insert(seam::order_fingerprint());
+            stats.hash_epochs += 1;
             // ---- D4 on every value and type of the map
             let mut texts: Vec<(String, String, String)> = Vec::new();
             for (n, ty, v) in &logical.entries {
@@ -254,6 +258,7 @@ pub fn check_map(map_seed: u64, mask: u64, n_seeds: usize, only_seed: Option<u64
                             m.remove(&WitnessName::from_str_unchecked(&format!("TRANSIENT{k}")));
                         }
                     }
+                    stats.insertion_histories += 1;
                     built.push((format!("api/h{hist}"), AnyMap::from_hash(kind, m)));
                 }
                 let reference = built[0].1.clone();
@@ -262,6 +267,7 @@ pub fn check_map(map_seed: u64, mask: u64, n_seeds: usize, only_seed: Option<u64
                     let mut perm = texts.clone();
                     rng.shuffle(&mut perm);
                     let text = module_text(kind, &perm, &mut rng, true);
+                    stats.permuted_texts += 2;
                     match guarded(|| AnyMap::parse_module(kind, &text)) {
                         Err(p) => return viol("PANIC", format!("parsing a module text panicked: {p}"), "module/permuted"),
                         Ok(Ok(m)) if m == reference => built.push(("module/permuted".into(), m)),
@@ -441,6 +447,9 @@ pub fn run(o: &Opts) -> i32 {
         total.prints += stats.prints;
         total.routes_unavailable += stats.routes_unavailable;
         total.dup_checks += stats.dup_checks;
+        total.hash_epochs += stats.hash_epochs;
+        total.insertion_histories += stats.insertion_histories;
+        total.permuted_texts += stats.permuted_texts;
         total.value_roundtrips += stats.value_roundtrips;
         total.type_roundtrips += stats.type_roundtrips;
         total.json_roundtrips += stats.json_roundtrips;
@@ -517,6 +526,9 @@ pub fn run(o: &Opts) -> i32 {
     rep.count("prints", total.prints);
     rep.count("routes_unavailable_not_judged", total.routes_unavailable);
     rep.count("duplicate_texts_checked", total.dup_checks);
+    rep.count("fault_hash_seed_changes_epochs", total.hash_epochs);
+    rep.count("fault_insertion_histories", total.insertion_histories);
+    rep.count("fault_permuted_module_and_json_texts", total.permuted_texts);
     rep.count("value_roundtrips", total.value_roundtrips);
     rep.count("type_roundtrips", total.type_roundtrips);
     rep.count("json_roundtrips", total.json_roundtrips);
